@@ -201,17 +201,6 @@ func (x *Ctx) RenderJSON(t *abs.Tree, at abs.Path, pkg *reg.Pkg, o JSONOpts) int
 		}
 		return cur
 	}
-	// containers
-	var cs []string
-	for c := range t.Conts {
-		cs = append(cs, c)
-	}
-	sort.Strings(cs)
-	for _, c := range cs {
-		if rel, ok := under(c); ok && rel != nil {
-			descend(rel)
-		}
-	}
 	// entries, in order
 	var ls []string
 	for l := range t.Ents {
@@ -228,6 +217,17 @@ func (x *Ctx) RenderJSON(t *abs.Tree, at abs.Path, pkg *reg.Pkg, o JSONOpts) int
 			if rel, ok := under(l + abs.Sep + k); ok && rel != nil {
 				descend(rel)
 			}
+		}
+	}
+	// containers
+	var cs []string
+	for c := range t.Conts {
+		cs = append(cs, c)
+	}
+	sort.Strings(cs)
+	for _, c := range cs {
+		if rel, ok := under(c); ok && rel != nil {
+			descend(rel)
 		}
 	}
 	setLeaf := func(k string, v interface{}) {
